@@ -27,6 +27,12 @@ func Dispatch(env *Env, kind string, payload json.RawMessage) (interface{}, erro
 			return nil, err
 		}
 		return RunC03(env, &j), nil
+	case "c18":
+		var j C18Job
+		if err := json.Unmarshal(payload, &j); err != nil {
+			return nil, err
+		}
+		return RunC18(env, &j), nil
 	case "e3":
 		var j E3Job
 		if err := json.Unmarshal(payload, &j); err != nil {
